@@ -422,7 +422,7 @@ impl TryFrom<Option<&SubtypeElements>> for PerVisibleRangeConstraints {
             },
             Some(SubtypeElements::ContainedSubtype {
                 subtype,
-                extensible: _,
+                extensible,
             }) => per_visible_range_constraints(
                 // value ranges are signed, sizes start at zero; a type reference carries either
                 !matches!(
@@ -434,7 +434,12 @@ impl TryFrom<Option<&SubtypeElements>> for PerVisibleRangeConstraints {
                         | ASN1Type::SetOf(_)
                 ),
                 subtype.constraints(),
-            ),
+            )
+            .map(|mut c| {
+                // `(Subtype, ...)`: an extension marker may follow the contained subtype
+                c.extensible |= *extensible;
+                c
+            }),
             x => {
                 eprintln!("{x:?}");
                 unreachable!()
